@@ -35,8 +35,106 @@ const sessMaxEvents = 70
 var sessPreValidation = os.Getenv("SESS_PREVALIDATION") != ""
 
 type sessGen struct {
-	r *gen.R
-	m *sessRunner
+	r  *gen.R
+	m  *sessRunner
+	uk string // the field of the unique secondary index the history started with ("" = none)
+}
+
+// prelude: a unique secondary index over collection c and a few documents with distinct keys,
+// created by plain calls before anything else (40 % of the histories).
+func (g *sessGen) prelude() []*sessStep {
+	r := g.r
+	if !r.P(40) {
+		return nil
+	}
+	g.uk = []string{"a", "b"}[r.N(2)]
+	n := 3 + r.N(2)
+	var docs []bson.D
+	for i := 1; i <= n; i++ {
+		docs = append(docs, bson.D{{Key: "_id", Value: int32(i)}, {Key: g.uk, Value: int32(i)}})
+	}
+	steps := []*sessStep{
+		{K: "call", Sid: -1, C: &sessCall{M: "createIndex", Coll: "c", Keys: bson.D{{Key: g.uk, Value: int32(1 - 2*r.N(2))}}, Unique: true}},
+		{K: "call", Sid: -1, C: &sessCall{M: "insertMany", Coll: "c", Docs: docs, Ordered: true}},
+	}
+	if r.P(30) {
+		steps[0], steps[1] = steps[1], steps[0] // the index is built over the existing documents
+	}
+	return steps
+}
+
+// colliding: a write on collection c around the unique key: multi-updates that produce a duplicate at
+// the second or a later document (or shift all keys without one), replacements / single updates onto
+// a taken key, batches with a duplicate behind a valid item, inserts of taken and free keys.
+func (g *sessGen) colliding(c *sessCall, docs bsonkit.List) {
+	r := g.r
+	k := g.uk
+	c.Coll = "c"
+	num := func(n int) interface{} {
+		switch r.N(5) {
+		case 0:
+			return int64(n)
+		case 1:
+			return float64(n)
+		}
+		return int32(n)
+	}
+	keyOf := func() interface{} {
+		if len(docs) > 0 {
+			if v := bsonkit.Get(docs[r.N(len(docs))], k); v != bsonkit.Missing {
+				if d, err := bsonkit.Transform(bson.D{{Key: "v", Value: v}}); err == nil {
+					return (*d)[0].Value
+				}
+			}
+		}
+		return num(1 + r.N(5))
+	}
+	idOf := func() bson.D { return bson.D{{Key: "_id", Value: g.id(docs)}} }
+	fresh := func() interface{} { return int32(10 + r.N(90)) }
+	switch n := r.N(100); {
+	case n < 14:
+		c.M, c.Q = "updateMany", bson.D{}
+		c.U = bson.D{{Key: "$set", Value: bson.D{{Key: k, Value: num(1 + r.N(8))}}}}
+	case n < 28:
+		c.M, c.Q = "updateMany", bson.D{{Key: k, Value: bson.D{{Key: []string{"$lte", "$gte"}[r.N(2)], Value: int32(1 + r.N(4))}}}}
+		c.U = bson.D{{Key: "$inc", Value: bson.D{{Key: k, Value: int32(1 - 2*r.N(2))}}}}
+	case n < 36:
+		c.M, c.Q = "updateMany", bson.D{}
+		c.U = bson.D{{Key: "$inc", Value: bson.D{{Key: k, Value: int32([]int{1, -1, 10}[r.N(3)])}}}}
+	case n < 40:
+		c.M, c.Q = "updateMany", bson.D{}
+		c.U = bson.D{{Key: "$mul", Value: bson.D{{Key: k, Value: int32([]int{0, 2, -1}[r.N(3)])}}}}
+	case n < 50:
+		c.M, c.Q, c.Upsert = "replaceOne", idOf(), r.P(25)
+		c.Repl = bson.D{{Key: k, Value: keyOf()}}
+	case n < 60:
+		c.M, c.Q, c.Upsert = []string{"updateOne", "findOneAndUpdate"}[r.N(2)], idOf(), r.P(25)
+		c.U = bson.D{{Key: "$set", Value: bson.D{{Key: k, Value: keyOf()}}}}
+	case n < 70:
+		c.M, c.Ordered = "insertMany", r.P(50)
+		c.Docs = []bson.D{{{Key: "_id", Value: fresh()}, {Key: k, Value: fresh()}}, {{Key: "_id", Value: fresh()}, {Key: k, Value: keyOf()}}, {{Key: "_id", Value: fresh()}, {Key: k, Value: fresh()}}}
+	case n < 84:
+		c.M, c.Ordered = "bulkWrite", r.P(50)
+		c.Models = []apiBulk{
+			{T: "insertOne", Doc: bson.D{{Key: "_id", Value: fresh()}, {Key: k, Value: fresh()}}},
+			{T: []string{"updateMany", "updateOne"}[r.N(2)], Q: bson.D{}, U: bson.D{{Key: "$set", Value: bson.D{{Key: k, Value: keyOf()}}}}},
+			{T: "insertOne", Doc: bson.D{{Key: "_id", Value: fresh()}, {Key: k, Value: keyOf()}}},
+		}
+		if r.P(40) {
+			c.Models[1] = apiBulk{T: "replaceOne", Q: idOf(), Repl: bson.D{{Key: k, Value: keyOf()}}, Upsert: r.P(30)}
+		}
+		if r.P(30) {
+			c.Models = append(c.Models, apiBulk{T: "deleteOne", Q: idOf()})
+		}
+	case n < 90:
+		c.M, c.Q = []string{"deleteOne", "findOneAndDelete"}[r.N(2)], idOf()
+	default:
+		c.M = "insertOne"
+		c.Doc = bson.D{{Key: "_id", Value: g.r.ID()}, {Key: k, Value: num(1 + r.N(7))}}
+		if r.P(40) {
+			c.Doc[0].Value = fresh()
+		}
+	}
 }
 
 func (g *sessGen) coll() string {
@@ -191,6 +289,10 @@ func (g *sessGen) call(write, allowDirect bool, cat *lungo.Catalog) *sessCall {
 		default:
 			c.M = "listIndexes"
 		}
+		return c
+	}
+	if g.uk != "" && r.P(45) {
+		g.colliding(c, g.docsOf(cat, "c"))
 		return c
 	}
 	n := r.N(100)
@@ -429,6 +531,9 @@ func sessGenHistory(r *gen.R) []run.Case {
 	h := &sessHist{}
 	g := &sessGen{r: r, m: m}
 	cases := []run.Case{{Req: `{"op":"sess.reset"}`, Impl: `{"ok":null}`, Tags: []string{"sessions:" + strconv.Itoa(nSess)}}}
+	for _, st := range g.prelude() {
+		cases = append(cases, m.step(st, h).cases...)
+	}
 	steps := 5 + r.N(36)
 	for i := 0; i < steps && !m.dead; i++ {
 		out := m.step(g.next(), h)
@@ -501,6 +606,10 @@ func sessStepOfReq(r reqObj) (st *sessStep, err error) {
 	}
 	c.Unique = r.boolean("unique")
 	c.Name = r.str("name")
+	if ms, ok := r["models"].([]interface{}); ok {
+		c.Models = decodeAPICall(r).Models
+		_ = ms
+	}
 	st.C = c
 	return st, nil
 }
@@ -622,6 +731,9 @@ func init() {
 		Rule: "one history = 2..3 sessions + a plain client over 1 database x 2 collections, 5..40 steps executed one call at a time on the real " +
 			"engine (start / commit / abort / end, driver calls with the session context incl. nested direct-Begin calls, plain reads and " +
 			"plain writes that wait 150 ms for a held writer slot, calls on ended sessions, commit twice, start on an ended or busy session, " +
+			"index operations directly on the open transaction followed by abort; 40% of the histories start with a unique secondary index over a few documents and then mix in " +
+			"multi-updates / replacements / batches (insertMany, bulkWrite) that fail for uniqueness at a later document, inside and outside transactions, followed by commits; " +
+			"monitors on the implementation alone: a failed statement leaves the transaction's view unchanged (C02), every index of the view / the committed catalog is coherent (C15), unique keys (C07); " +
 			"6-15% injected store failures on commits); every step is one case compared with Lean `SSys.step`, followed by dump cases " +
 			"(transaction view = sess.dumpTxn, committed = sess.dump); snapshots (Catalog(), open cursors, unlocked transactions, the " +
 			"session's catalog) are re-read after every later step; non-trivial = the step was blocked, changed the committed catalog or the " +
